@@ -115,10 +115,19 @@ def main(argv=None):
     t0 = time.time()
     try:
         res = mod.run(a.tier, seed, a.jobs or None)
-    except Exception:
-        traceback.print_exc()
-        print("FAULT: harness error in", prop)
-        return 2
+    except Exception as e:
+        if core._raised_in_library(e):
+            # raised by the tree under test outside any worker (see core._call): the library's behaviour, reported as a violation
+            res = core.Result()
+            res.evaluations = 1
+            res.outcomes.update({"library-exception", "aborted"})
+            res.violate(core.Violation("exception-escapes-library", "the call returns (or raises a documented library error)", core.exc_desc(e),
+                                       core.site_of(e), {"unreplayable": "raised outside any oracle; re-run the check"},
+                                       trace=traceback.format_exc().splitlines()[-12:], key="escape:%s@%s" % (type(e).__name__, core.site_of(e))))
+        else:
+            traceback.print_exc()
+            print("FAULT: harness error in", prop)
+            return 2
     wall = time.time() - t0
     known = core.load_known()
     new = 0
